@@ -103,7 +103,9 @@ class ProducerScenario:
         p = self.p
         single = p.get("batching", "single") == "single"
         kw = {}
-        if p.get("idempotent"):
+        if p.get("transactional"):
+            kw["transactional_id"] = "tx"  # implies idempotence; sends happen inside one transaction (C01's transactional scenarios)
+        elif p.get("idempotent"):
             kw["enable_idempotence"] = True
         else:
             kw["acks"] = p.get("acks", 1)
@@ -127,6 +129,8 @@ class ProducerScenario:
                 tm._sequence_numbers[TopicPartition("t", part)] = s0
                 self.cluster.seed_producer_state("t", part, tm.producer_id, tm.producer_epoch, s0 - 1)
         self.s0 = s0
+        if p.get("transactional"):
+            await prod.begin_transaction()
         if p.get("mode_now"):
             self.set_mode(tuple(p["mode_now"]))  # cluster mode in force from the first send on (C19)
         tasks = [world.spawn("p", self.sender, i, prog) for i, prog in enumerate(p["program"])]
@@ -158,6 +162,12 @@ class ProducerScenario:
                 t.cancel()
         self.all_done_at = world.now()
         self.unresolved = [v for v, f in self.futs.items() if not f.done()]
+        if p.get("transactional") and not self.unresolved:
+            try:
+                await asyncio.wait_for(prod.commit_transaction(), timeout=H)
+                self.txn_end = "committed"
+            except Exception as e:  # noqa: BLE001 - the outcome of the transaction is C07's subject; C01 looks at order and sequences
+                self.txn_end = type(e).__name__
         if not self.unresolved:
             t0 = world.now()
             await prod.stop()
